@@ -255,9 +255,8 @@ theorem toInt_pack_isSome (neg : Bool) (E M : Nat) (hE1 : 1 ≤ E) (hE2 : E < 20
   · rw [if_neg (by omega), if_neg (by omega), if_pos h3]
     rfl
 
-theorem formatFloat_isSome (x : F64) (h : (toInt? x).isSome = true) : (Api.formatFloat x).isSome = true := by
-  unfold Api.formatFloat
-  rw [Option.isSome_map]; exact h
+/-- since Model/FloatDec.lean `Api.formatFloat` is total; the hypothesis is kept for the callers -/
+theorem formatFloat_isSome (x : F64) (_h : (toInt? x).isSome = true) : (Api.formatFloat x).isSome = true := rfl
 
 /-- the doubles INCRBYFLOAT / HINCRBYFLOAT accept as increments in the model (`ofInt?` of an integer):
     adding one to 0 (the value of a key that was just created) gives a sum the model can format -/
@@ -323,9 +322,10 @@ theorem parseFloatText_tail_ne (body : Bytes) (x : F64) :
     dsimp only at h
     (repeat' split at h) <;> cases h
 
-theorem parseFloatText_some {b : Bytes} {x : F64} (h : Api.parseFloatText b = some (some x)) :
+/-- about the integer-only model that preceded Model/FloatDec.lean (`Api.parseFloatTextInt`) -/
+theorem parseFloatTextInt_some {b : Bytes} {x : F64} (h : Api.parseFloatTextInt b = some (some x)) :
     ∃ n : Int, ofInt? n = some x := by
-  unfold Api.parseFloatText at h
+  unfold Api.parseFloatTextInt at h
   split at h
   · split at h
     · next n _ =>
